@@ -8,7 +8,7 @@ Every escaping (function, class) keeps a witness chain of (function, line, text)
 import ast
 import builtins
 
-from .index import Func, iter_own_nodes
+from .index import Func, iter_own_nodes, iter_own_stmts
 from .types import DT, NONE, RD, STR, TD, TZ
 
 # ---------------------------------------------------------------------------
@@ -230,6 +230,8 @@ class Effects:
             elif isinstance(n, ast.Subscript):
                 self._subscript(n, stmt, f, stack, sites)
             elif isinstance(n, (ast.Compare, ast.comprehension)):
+                if isinstance(n, ast.Compare):
+                    self._dt_compare(n, stmt, f, stack, sites)
                 imp = self.ti.implicit_callees(n, f)
                 if imp:
                     sites.append(Site(f, n, stmt, "call", stack, callees=imp))
@@ -363,6 +365,17 @@ class Effects:
                 sites.append(Site(f, node, stmt, "prim", stack,
                                   excs={"ZeroDivisionError": "division by a computed value"}))
 
+    def _dt_compare(self, n, stmt, f, stack, sites):
+        """ordering comparison of two datetimes: TypeError when one is offset-naive and the other offset-aware"""
+        if not any(isinstance(o, (ast.Lt, ast.LtE, ast.Gt, ast.GtE)) for o in n.ops):
+            return
+        ops = [n.left] + list(n.comparators)
+        for a, b in zip(ops, ops[1:]):
+            if DT in self.ti.type_of(a, f) and DT in self.ti.type_of(b, f) and not awareness_aligned(f, n, a, b):
+                sites.append(Site(f, n, stmt, "prim", stack, excs={
+                    "TypeError": "comparison of %s with %s before their offset-awareness has been aligned" % (ast.unparse(a), ast.unparse(b))},
+                    why="naive-vs-aware"))
+
     def _subscript(self, n, stmt, f, stack, sites):
         """look-ahead rule: seq[i +- k] with i a loop index"""
         sl = n.slice
@@ -492,6 +505,90 @@ def bound_guarded(f, node, idx):
                     return True
                 if not p and isinstance(op, (ast.Eq, ast.Lt, ast.LtE, ast.Gt, ast.GtE)):
                     return True
+    return False
+
+
+def _root_text(e):
+    """the value an expression's awareness derives from: x for x, x - delta, x + delta, x.replace(<no tzinfo>)"""
+    while True:
+        if isinstance(e, ast.BinOp) and isinstance(e.op, (ast.Add, ast.Sub)):
+            e = e.left
+        elif isinstance(e, ast.Call) and isinstance(e.func, ast.Attribute) and e.func.attr == "replace" \
+                and not any(k.arg == "tzinfo" for k in e.keywords):
+            e = e.func.value
+        else:
+            return ast.unparse(e)
+
+
+def awareness_aligned(f, node, a, b):
+    """the comparison `node` of datetimes a and b is dominated by the alignment idiom
+         assert not (A.tzinfo is None and B.tzinfo is not None)      (or the symmetric if-branch)
+         if A.tzinfo is not None and B.tzinfo is None: B = <zone>.localize(B) | B.replace(tzinfo=<zone>)
+       and B is afterwards only rebound to values derived from itself (replace without tzinfo, +- delta)."""
+    from .cfg import CFG
+    from .ctx import conjuncts
+    g = getattr(f, "_cfg_plain", None)
+    if g is None:
+        g = f._cfg_plain = CFG(f.node)
+    here = g.node_of_expr(f.node, node)
+    stmt_here = g.nodes[here].stmt if here is not None else None
+    if stmt_here is None:
+        return False
+    for A, B in ((_root_text(a), _root_text(b)), (_root_text(b), _root_text(a))):
+        if not B.isidentifier():
+            continue
+        aligns = []
+        for s in iter_own_stmts(f.node.body):
+            if not isinstance(s, ast.If) or s.orelse:
+                continue
+            atoms = {" ".join(ast.unparse(x).split()) for x, pol in conjuncts(s.test, True) if pol}
+            if not {"%s.tzinfo is not None" % A, "%s.tzinfo is None" % B} <= atoms:
+                continue
+            if len(s.body) == 1 and isinstance(s.body[0], ast.Assign) and ast.unparse(s.body[0].targets[0]) == B:
+                v = s.body[0].value
+                if isinstance(v, ast.Call) and isinstance(v.func, ast.Attribute) and (
+                        (v.func.attr == "localize" and v.args and ast.unparse(v.args[0]) == B)
+                        or (v.func.attr == "replace" and ast.unparse(v.func.value) == B and any(k.arg == "tzinfo" for k in v.keywords))):
+                    aligns.append(s)
+        if not aligns:
+            continue
+        al = aligns[0]
+        if not g.dominates(al, stmt_here):
+            continue
+        # the other mismatch (A naive, B aware) is excluded by a dominating assert
+        asserted = False
+        for s in iter_own_stmts(f.node.body):
+            if isinstance(s, ast.Assert) and isinstance(s.test, ast.UnaryOp) and isinstance(s.test.op, ast.Not):
+                atoms = {" ".join(ast.unparse(x).split()) for x, pol in conjuncts(s.test.operand, True) if pol}
+                if {"%s.tzinfo is None" % A, "%s.tzinfo is not None" % B} <= atoms and g.dominates(s, al):
+                    asserted = True
+        if not asserted:
+            continue
+        # rebinding of B between the alignment and the comparison keeps its awareness; A is not rebound
+        ok = True
+        after = g.reachable_from(list(g.nodes_of(al)))
+        before = {here}
+        work = [here]
+        while work:
+            x = work.pop()
+            for p_, _lbl in g.pred[x]:
+                if p_ not in before:
+                    before.add(p_)
+                    work.append(p_)
+        after = set(after) & before       # statements on a path from the alignment to the comparison
+        for s in iter_own_stmts(f.node.body):
+            if s is al.body[0] or not isinstance(s, (ast.Assign, ast.AugAssign)):
+                continue
+            tg = s.targets if isinstance(s, ast.Assign) else [s.target]
+            names = {ast.unparse(t) for t in tg}
+            if not ({A, B} & names) or not (set(g.nodes_of(s)) & after):
+                continue
+            if A in names:
+                ok = False
+            elif isinstance(s, ast.Assign) and _root_text(s.value) != B:
+                ok = False
+        if ok:
+            return True
     return False
 
 
